@@ -642,6 +642,39 @@ def feedback_case(p, res):
             res.viol("feedback", cfgf, "rounds" if log.count("encoder") != it else "order", f"components ran {log}, expected {exp}")
         elif len(out["iterations"]) != it or len(out["feedback_history"]) != it or float(out["final_output"]) != float(out["iterations"][-1]["decoded"]) or float(out["final_output"]) != 112.0:
             res.viol("feedback", cfgf, "rounds", f"{len(out['iterations'])} rounds recorded, final_output {out.get('final_output')}")
+    # the number of rounds is configured, not data-dependent: value-transparent stages (a lossless link: decoded == input from round 1 on), stages
+    # that return zeros, and a link that becomes lossless in round 2 only - always exactly max_iterations rounds
+    for behaviour in ("transparent", "zeros", "lossless-from-round-2"):
+        for it in range(1, 6):
+            for x0 in (torch.tensor([1.0, 0.0, 1.0]), torch.zeros(2, 3)):
+                del log[:]
+                state = {"round": 0}
+
+                def mkv(base, tag, behaviour=behaviour, state=state):
+                    class R(base):
+                        def forward(self, x, *a, **k):
+                            log.append(tag)
+                            if tag == "encoder":
+                                state["round"] += 1
+                            if behaviour == "zeros":
+                                return torch.zeros_like(x)
+                            if behaviour == "lossless-from-round-2" and tag == "fwd" and state["round"] == 1:
+                                return x + 1.0
+                            return x.clone() if tag in ("decoder", "generator") else x
+                    return R()
+                parts = [mkv(BaseModel, "encoder"), mkv(BaseChannel, "fwd"), mkv(BaseModel, "decoder"), mkv(BaseModel, "generator"), mkv(BaseChannel, "fb"), mkv(BaseModel, "processor")]
+                cfgf = f"iterations={it},{behaviour},input={'x'.join(map(str, x0.shape))}"
+                try:
+                    out = FeedbackChannelModel(*parts, max_iterations=it)(x0)
+                except Exception as e:  # noqa: BLE001
+                    res.viol("feedback", cfgf, "raises", f"{type(e).__name__}: {e}")
+                    continue
+                res.ev(1, nontrivial=1, transitions=1)
+                exp = []
+                for i in range(it):
+                    exp += (["processor"] if i > 0 else []) + ["encoder", "fwd", "decoder", "generator", "fb"]
+                if log != exp or len(out["iterations"]) != it or len(out["feedback_history"]) != it:
+                    res.viol("feedback", cfgf, "rounds" if log.count("encoder") != it else "order", f"components ran {log} ({len(out['iterations'])} rounds recorded), expected {it} rounds: {exp}")
     res.sample({"iterations": "1..5"})
 
 
